@@ -21,7 +21,7 @@ func init() { register("C08", runC08) }
 
 // c08Rec is one hop record as an attacker or an honest router would build it.
 type c08Rec struct {
-	pub     m.PublicAddress    // identity attached to the record
+	pub     m.PublicAddress // identity attached to the record
 	delay   uint16
 	fl, rl  m.SwitchLabel
 	signKey ed25519.PrivateKey // key that signs the record (nil: all-zero signature)
